@@ -79,6 +79,36 @@ def _sym_task(first):
     return acc
 
 
+def _poison(acc):
+    """calls that raise (arguments of the wrong type at each position) followed by valid calls: the result of a valid call
+    must not depend on what was attempted before"""
+    sp = T.lib().sp
+    probes = [(b"ab", b"c", b"X", b"Y", b"K", b"pw"), (b"", b"", b"", b"", b"", b""), (b"a", b"bc", b"X", b"Y", b"K", b"pw")]
+    sprobes = [(b"id", b"m1", b"m2", b"K", b"pw"), (b"", b"b", b"a", b"", b"")]
+    for bad in ("text", None, 5, [b"x"]):
+        for pos in range(6):
+            t = list(probes[0])
+            t[pos] = bad
+            T.observe(sp.finalize_SPAKE2, *t)
+            for p in probes:
+                got = T.observe(sp.finalize_SPAKE2, *p)
+                acc.n(states=1, transitions=2)
+                if got != ("ok", ref_asym(*p)):
+                    acc.violation("C17/asymmetric-after-failed-call", {"what": "finalize_SPAKE2 on valid arguments is wrong after an earlier call raised (argument %d was %r)" % (pos, bad),
+                                  "replay": {"fn": "asym", "args": list(p)}, "expected": ref_asym(*p), "observed": got})
+        for pos in range(5):
+            t = list(sprobes[0])
+            t[pos] = bad
+            T.observe(sp.finalize_SPAKE2_symmetric, *t)
+            for p in sprobes:
+                got = T.observe(sp.finalize_SPAKE2_symmetric, *p)
+                acc.n(states=1, transitions=2)
+                if got != ("ok", ref_sym(*p)):
+                    acc.violation("C17/symmetric-after-failed-call", {"what": "finalize_SPAKE2_symmetric on valid arguments is wrong after an earlier call raised (argument %d was %r)" % (pos, bad),
+                                  "replay": {"fn": "sym", "args": list(p)}, "expected": ref_sym(*p), "observed": got})
+    acc.seen(("poison", "done"))
+
+
 def _extra(acc):
     sp = T.lib().sp
     # byte pairs that expose signed comparison, length-first sorting, prefix handling
@@ -131,6 +161,7 @@ def run(tier, seed):
     core.pmerge(_asym_task, [(a, b) for a in ALPHA for b in ALPHA], acc)
     core.pmerge(_sym_task, ALPHA, acc)
     _extra(acc)
+    _poison(acc)
     return acc
 
 
